@@ -19,11 +19,12 @@ LEVEL_TEXT = ("Bounded contract on the real xarray_dataset_from_results / load_x
               "xarray/pandas objects are outside the proof rung: no deductive part ('exploration').")
 LEVEL_TEXT += (" Proved part (pyvc): _data_loader - the only place where the two entry points differ: given the results of a run it hands out that run's output, otherwise what load_outputs reads from the folder (load_outputs is an assumed contract; that both hold the same values is C04).")
 LEVEL_TEXT += (" Also proved: pipefunc.map.xarray.load_xarray_dataset (the dataset of a folder is _xarray_dataset on the given MapSpecs and inputs with the loader that reads each value from the folder, for the requested output names or - without a request - all recorded ones, sorted), relative to assumed pure contracts of RunInfo.load, sorted, functools.partial and _xarray_dataset.")
+LEVEL_TEXT += (" And its twin xarray_dataset_from_results (the same _xarray_dataset construction on the pipeline's MapSpecs, defaults | inputs - in this order: given inputs win -, the loader that reads from the results, and all result names, sorted).")
 LEVEL_NOTE = ("Bounds: programs of 1..3 functions, rank<=2, sizes 1..3, load_intermediate on/off, inputs supplied or "
               "taken from (array) defaults. Trusted: reference denotation rtc/progs.py, xarray.")
 TECHNIQUE = ("bounded contract checking of the dataset labelling against the reference denotation; the loader "
              "_data_loader (the one place where the two entry points differ) discharged by z3")
-TECHNIQUE += ('; load_xarray_dataset (map/xarray.py) discharged by z3')
+TECHNIQUE += ('; load_xarray_dataset (map/xarray.py) and xarray_dataset_from_results discharged by z3')
 EXPLANATION = LEVEL_TEXT
 RULE = ("program x load_intermediate; distinct = distinct (program, flag); non-trivial = a mapped output with >=2 elements")
 TRUSTED_BASE = ["reference denotation rtc/progs.py", "xarray / pandas", "pyvc/z3 for _data_loader"]
@@ -43,7 +44,10 @@ def proof_items():
             # the dataset of a folder: the same construction (_xarray_dataset) with the folder's loader and the requested -
             # or, without a request, all recorded - output names
             ProofItem(small.xr_load_dataset, gen=small.xl_gen, call=small.xl_call,
-                      registry=lambda: {**{c.short: c for c in small.XR_LOAD}, **{c.name: c for c in small.XR_LOAD}})]
+                      registry=lambda: {**{c.short: c for c in small.XR_LOAD}, **{c.name: c for c in small.XR_LOAD}}),
+            # ... and the twin: the same construction on the pipeline's MapSpecs, defaults | inputs and the results' loader
+            ProofItem(small.xr_from_results, gen=small.xf_gen, call=small.xf_call,
+                      registry=lambda: {**{c.short: c for c in small.XR_FROM}, **{c.name: c for c in small.XR_FROM}})]
 
 
 def _cases(tier, rng):
